@@ -317,8 +317,11 @@ def run(ctx):
         for rec in recs.get(idx, []):
             st = job['stage']
             if 'hang' in rec:
-                ctx.failing_input('parser stage %s did not return (watchdog): input %r; stack: %s' %
-                                  (st, rec.get('item'), rec['hang'][-700:]),
+                import re
+                fr = re.findall(r'File "([^"]*)", line (\d+), in (\S+)', rec['hang'])
+                ctx.failing_input('parser stage %s BLOCKED (watchdog) on input %s; innermost frames: %s' %
+                                  (st, str(rec.get('item'))[:300],
+                                   ' <- '.join('%s:%s %s' % (os.path.basename(f), ln, fn) for f, ln, fn in reversed(fr[-5:]))),
                                   {'kind': 'parser_hang', 'stage': st, 'item': rec.get('item'), 'seed': ctx.seed,
                                    'n': job['n'], 'tier': ctx.tier})
             elif 'error' in rec:
